@@ -1,5 +1,7 @@
 import MlodaVerif.Model.Store
 import MlodaVerif.Gen.Tracker
+import MlodaVerif.Gen.JoinAll
+import MlodaVerif.Lemmas.PyRt
 /-! # C09 – the hand-written drop tracker `Store.report` equals the translation of compute_framework.py
 
 `Gen/Tracker.lean` is the translation (harness/pytrans.py, every run) of
@@ -76,3 +78,72 @@ theorem C09.gen_tracker_drops_iff_all_children (c : Cfw) (ch : List Nat) :
 
 example : addChildrenAndDrop (toCfwSelf { children := [1, 2], tracker := [1] }) [2, 7] () [] =
     .ok (.bool true, { already_calculated_children_tracker := [1, 2, 7], children_if_root := [1, 2], object_ids := [] }, ["drop_last_data"]) := by rfl
+
+
+/-! ## `WorkerManager.join_all` (translated into `Gen/JoinAll.lean`) -/
+section JoinAll
+open Gen.JoinAll
+
+/-- terminating or joining task `t` raises (`terminate` is only called on processes) -/
+def taskFails (isP jf tf : Nat → Bool) (t : Nat) : Bool := (isP t && tf t) || jf t
+
+/-- the calls that complete for task `t`, in order -/
+def attempt (isP jf tf : Nat → Bool) (t : Nat) : List String :=
+  (if isP t && !tf t then ["terminate:" ++ toString t] else []) ++
+  (if !(isP t && tf t) && !jf t then ["join:" ++ toString t] else [])
+
+theorem joinAll_foldl (tasks : List Nat) (isP jf tf : Nat → Bool) (log : List String) (f : Bool) :
+    tasks.foldl (fun (s : List String × Bool) t => (s.1 ++ attempt isP jf tf t, s.2 || taskFails isP jf tf t)) (log, f)
+      = (log ++ tasks.flatMap (attempt isP jf tf), f || tasks.any (taskFails isP jf tf)) := by
+  induction tasks generalizing log f with
+  | nil => simp
+  | cons a t ih => simp [ih, List.append_assoc, Bool.or_assoc]
+
+/-- **the loop of `join_all` visits every task, whatever failed before**: for every task list and every choice of
+failing terminate / join calls the loop never raises, its flag is "some task failed", and the completed calls are exactly
+each task's own attempt, in task order - a failure of one task removes nothing from the attempts of the others. -/
+theorem C09.gen_join_all_loop (tasks : List Nat) (isP jf tf : Nat → Bool) (log : List String) :
+    joinAllLoop ⟨tasks⟩ isP jf tf log =
+      .ok (tasks.any (taskFails isP jf tf), log ++ tasks.flatMap (attempt isP jf tf)) := by
+  unfold joinAllLoop
+  simp only [bind, Except.bind, pure, Except.pure]
+  rw [PyRt.forIn_yield_spec tasks _ (fun t (s : List String × Bool) => (s.1 ++ attempt isP jf tf t, s.2 || taskFails isP jf tf t))]
+  · rw [joinAll_foldl]; simp
+  · intro t s
+    by_cases h1 : isP t <;> by_cases h2 : tf t <;> by_cases h3 : jf t <;> simp [h1, h2, h3, attempt, taskFails]
+
+/-- every task whose own terminate / join do not raise is joined, even when other tasks fail -/
+theorem C09.gen_join_all_every_healthy_task_joined (tasks : List Nat) (isP jf tf : Nat → Bool) (t : Nat)
+    (ht : t ∈ tasks) (hok : taskFails isP jf tf t = false) :
+    ∃ f l, joinAllLoop ⟨tasks⟩ isP jf tf [] = .ok (f, l) ∧ ("join:" ++ toString t) ∈ l := by
+  refine ⟨_, _, C09.gen_join_all_loop tasks isP jf tf [], ?_⟩
+  simp only [List.nil_append, List.mem_flatMap]
+  refine ⟨t, ht, ?_⟩
+  simp only [taskFails, Bool.or_eq_false_iff] at hok
+  simp [attempt, hok.1, hok.2]
+
+/-- `join_all` raises "Error while joining tasks" exactly when some terminate / join raised - and only after the loop -/
+theorem C09.gen_join_all_raises_iff (tasks : List Nat) (isP jf tf : Nat → Bool) (log : List String) :
+    Gen.JoinAll.joinAll ⟨tasks⟩ isP jf tf log =
+      if tasks.any (taskFails isP jf tf) then .error (.exception "Error while joining tasks")
+      else .ok (log ++ tasks.flatMap (attempt isP jf tf)) := by
+  unfold Gen.JoinAll.joinAll
+  simp only [bind, Except.bind, pure, Except.pure]
+  rw [PyRt.forIn_yield_spec tasks _ (fun t (s : List String × Bool) => (s.1 ++ attempt isP jf tf t, s.2 || taskFails isP jf tf t))]
+  · rw [joinAll_foldl]
+    by_cases h : tasks.any (taskFails isP jf tf) <;> simp [h, throw, throwThe, MonadExceptOf.throw]
+  · intro t s
+    by_cases h1 : isP t <;> by_cases h2 : tf t <;> by_cases h3 : jf t <;> simp [h1, h2, h3, attempt, taskFails]
+
+/-- the hand-written `Store.joinAll` reports failure exactly when the translated `join_all` raises
+(the model has one failure predicate per task: terminate-or-join) -/
+theorem C09.gen_join_all_is_model (w : WM) (isP jf tf : Nat → Bool) :
+    (Store.joinAll w (taskFails isP jf tf)).2 = true ↔
+      Gen.JoinAll.joinAll ⟨w.tasks⟩ isP jf tf [] = .error (.exception "Error while joining tasks") := by
+  rw [C09.gen_join_all_raises_iff]
+  by_cases h : w.tasks.any (taskFails isP jf tf) <;> simp [Store.joinAll, h]
+
+example : joinAllLoop ⟨[1, 2, 3]⟩ (fun t => t == 2) (fun t => t == 1) (fun _ => false) [] =
+    .ok (true, ["terminate:2", "join:2", "join:3"]) := by rfl
+
+end JoinAll
